@@ -184,7 +184,7 @@ PROPS = {
     "C05": {
         "level": "proof",
         "lean_modules": ["SqlizeModel.Proofs.ScopeB", "SqlizeModel.Props.C05", "SqlizeModel.Props.TieParser", "SqlizeModel.Props.TieElement", "SqlizeModel.Props.TieApiLoad"],
-        "theorems": ["Sqlize.proved_dump", "Sqlize.C05.split_invariant", "Sqlize.C05.calls_invariant", "Sqlize.C05.rejected_unchanged", "Sqlize.C05.parse_before_edit",
+        "theorems": ["Sqlize.proved_dump", "Sqlize.C05.dump_on_reference_engine", "Sqlize.C05.split_invariant", "Sqlize.C05.calls_invariant", "Sqlize.C05.rejected_unchanged", "Sqlize.C05.parse_before_edit",
                      "Sqlize.C05.load_keeps_inv", "Sqlize.C05.rename_onto_existing_breaks", "Sqlize.readScript_inv", "Sqlize.fromString_inv", "Sqlize.C05.names_and_positions", "Sqlize.C05.names_positions_types", "Sqlize.C05.names_positions_types_options", "Sqlize.ReaderMysql.step_rel", "Sqlize.ReaderMysql.fidelity",
                      "Sqlize.C05.indexes_and_foreign_keys", "Sqlize.ReaderMysql.step_elems", "Sqlize.Table.removeColumn_raw",
                      "Sqlize.C05.primary_key_table_level", "Sqlize.ReaderMysql.step_pk", "Sqlize.pkOf_strip",
